@@ -86,7 +86,7 @@ def cmd_confirm(a):
                 env = dict(ENV, PYTHONPATH=mut)
                 t0 = time.time()
                 r = subprocess.run(["/venv/bin/python", "-m", "pytest", "-q", "-p", "no:cacheprovider",
-                                    "--timeout=900", "-x", "tests"], cwd=mut, env=env, capture_output=True, text=True)
+                                    "--timeout=3600", "tests"], cwd=mut, env=env, capture_output=True, text=True)
                 tail = [l for l in r.stdout.splitlines() if "passed" in l or "failed" in l or "error" in l.lower()][-1:]
                 m["tests_rc"] = r.returncode
                 m["ran"] = [x for x in m["ran"] if not x.startswith("pytest")]
